@@ -104,7 +104,7 @@ Print Assumptions C18_outline_of_file.
 
 (** ... and an entry ([entry_spec], proofs/OutlineProofs.v) is: for a class its name, kind Class, the range of the declaring
     identifier, one child per template argument (map order) then one per field; for a def the same without template
-    arguments; for a defset its defs as children; for a multiclass its template arguments; nothing for variables / defms. *)
+    arguments; for a defset its defs declared in the defset's own file as children (fix 28899f7); for a multiclass its template arguments; nothing for variables / defms. *)
 Theorem C18_outline_entry : forall S s r, symbol_to_document_symbol S s = SOk r -> entry_spec S s r.
 Proof. exact outline_entry. Qed.
 Check C18_outline_entry : forall S s r, symbol_to_document_symbol S s = SOk r -> entry_spec S s r.
